@@ -61,6 +61,9 @@ type env struct {
 	payOn   bool        // C14: payments enabled, container 2 unpaid since epoch 0
 	ungated atomic.Bool // C14: the write-cache scheduler may run
 
+	reportedRO atomic.Bool // the shard reports a read-only mode (maintained by opSetMode)
+	bgRO       atomic.Bool // a background flush reached the blobstor while the shard reported a read-only mode
+
 	bg atomic.Bool // a background flush touched the blobstor: the behaviour is not the scripted one
 
 	race *raceState // a paused explicit flush (flush-versus-delete schedules)
@@ -275,7 +278,7 @@ func (d *deco) Put(a oid.Address, data []byte) error {
 		return d.Storage.Put(a, data)
 	}
 	if gid() != e.mainGID {
-		e.bg.Store(true)
+		e.noteBg()
 		return d.Storage.Put(a, data)
 	}
 	if e.ctx != "flush" {
@@ -294,8 +297,19 @@ func (d *deco) Put(a oid.Address, data []byte) error {
 	return err
 }
 
+// noteBg: a background flush worker reached the blobstor. While the shard reports read-write this only means the
+// behaviour is no longer the scripted one (it is discarded); while it reports a READ-ONLY mode it is exactly what C14
+// forbids, so the behaviour is kept and judged (digests / projection show the change).
+func (e *env) noteBg() {
+	if e.reportedRO.Load() {
+		e.bgRO.Store(true)
+		return
+	}
+	e.bg.Store(true)
+}
+
 func (d *deco) PutBatch(m map[oid.Address][]byte) error {
-	d.e.bg.Store(true) // only the background flush workers batch
+	d.e.noteBg() // only the background flush workers batch
 	return d.Storage.PutBatch(m)
 }
 
@@ -628,6 +642,7 @@ func (e *env) opSetMode(m, fault string) {
 	if undo != nil {
 		undo()
 	}
+	e.reportedRO.Store(e.sh.GetMode().ReadOnly())
 	e.do("SetMode", kit.M{"m": m, "fault": fault}, res)
 }
 
